@@ -7,11 +7,12 @@ PROPERTY = "C17"
 LEVEL = "model_checking"
 RULE = ("BFS over sequences of read operations (item access, get, len, iteration, membership, ==/!= and ordering "
         "comparisons, repr/str, (), keys/values/items, navigation to nested children and reads on them) and LIFO enter/exit "
-        "of both buffered context kinds, on EXISTING and on MISSING resources, for every concrete class incl. the fake-store "
+        "of both buffered context kinds, on EXISTING and on MISSING resources and (JSON files) on a missing file next to the "
+        "debris of a first save that was killed just before its atomic replace, for every concrete class incl. the fake-store "
         "backends; after every event the resource must be untouched: same (inode, mtime_ns, size, bytes) for files and no "
         "temp file next to it, same write counters/content for fake stores, a missing resource stays missing; non-trivial = "
         "distinct reached states")
-BOUNDS = {"quick": "18 classes x {existing, missing}, depth 3", "thorough": "depth 4 (5 for buffered classes with contexts)"}
+BOUNDS = {"quick": "18 classes x {existing, missing, missing+crash debris}, depth 3", "thorough": "depth 4 (5 for buffered classes with contexts)"}
 ASSUMPTIONS = ["fake stores count set/replace_one/dataset writes", "default buffer capacity"]
 
 
@@ -45,6 +46,7 @@ class Hooks:
     def before_event(self, run, ev, last):
         if last:
             run.scratch["snap"] = [r.snapshot() for r in run.world.resources]
+            run.scratch["dirsnap"] = [r.dir_snapshot() if hasattr(r, "debris") else None for r in run.world.resources]
 
     def after_event(self, run, ev, outcome, exp, info, last):
         if not last:
@@ -55,7 +57,13 @@ class Hooks:
             if now != run.scratch["snap"][i]:
                 out.append(("written", "%r changed resource %d: %r -> %r" % (ev, i, seq._short(run.scratch["snap"][i]) if isinstance(run.scratch["snap"][i], tuple) and len(run.scratch["snap"][i]) == 4 else run.scratch["snap"][i],
                                                                             seq._short(now) if isinstance(now, tuple) and len(now) == 4 else now)))
-            if r.strays():
+            if hasattr(r, "debris"):
+                # started from 'missing + debris of a crashed first save': a read may not create, complete, move or
+                # remove anything in the directory
+                if r.dir_snapshot() != run.scratch["dirsnap"][i]:
+                    out.append(("debris-touched", "%r changed the directory around missing resource %d: %r -> %r"
+                                % (ev, i, [x[:2] for x in run.scratch["dirsnap"][i]], [x[:2] for x in r.dir_snapshot()])))
+            elif r.strays():
                 out.append(("temp-file", "%r left temp files %r" % (ev, r.strays())))
         return out
 
@@ -64,6 +72,7 @@ class Hooks:
         out = []
         ref, world = run.ref, run.world
         snap = [r.snapshot() for r in world.resources]
+        dsnap = [r.dir_snapshot() if hasattr(r, "debris") else None for r in world.resources]
         while ref.ctx_stack:
             top = ref.ctx_stack[-1]
             ev = ("exit", top[1]) if top[0] == "obj" else ("exit_cls",)
@@ -74,6 +83,8 @@ class Hooks:
         for i, r in enumerate(world.resources):
             if r.snapshot() != snap[i]:
                 out.append(("written", "leaving the contexts after read-only use changed resource %d" % i))
+            if dsnap[i] is not None and r.dir_snapshot() != dsnap[i]:
+                out.append(("debris-touched", "leaving the contexts after read-only use changed the directory around resource %d" % i))
         return out
 
 
@@ -87,7 +98,10 @@ def plan(tier, seed):
         k = env.kind_of(c)
         buffered = env.is_buffered_class(c)
         init = {"k": 0, "c": {"k": 0}} if k == "dict" else [0, [0]]
-        for nm, content in (("existing", init), ("missing", env.ABSENT)):
+        variants = [("existing", init), ("missing", env.ABSENT)]
+        if env.family_of(c) in env.JSON_FAMILIES:
+            variants.append(("missing+debris", env.Debris(init)))
+        for nm, content in variants:
             depth = 3 if tier == "quick" else (5 if buffered else 4)
             cfg = seq.Config(c, initial=(content,), label="%s/%s" % (c, nm))
             tasks.append(seqcheck.make_task("%s/d%d" % (cfg.label, depth), cfg, "alphabet", depth, {"result"}, hooks="probe"))
